@@ -29,7 +29,7 @@ echo "  suite(modified): ${suite:-all ok}"
 cd $wt && git apply "$patch" || { echo "patch does not apply"; exit 2; }
 sv=$(mktemp -d /tmp/seed_verif.XXXX); cp /verif/known_findings.json /verif/properties.jsonl $sv/
 for p in $id "$@"; do
-  o=$(/verif/bin/storagecheck -prop $p -tier quick -repo $wt -verif $sv 2>&1); rc=$?
+  o=$(${CHK:-/verif/bin/storagecheck} -prop $p -tier quick -repo $wt -verif $sv 2>&1); rc=$?
   echo "  check $p rc=$rc: $(echo "$o" | grep -E '^(VIOLATED|UNDECIDED)' | head -3 | cut -c1-220 | tr '\n' '|')"
 done
 git reset -q --hard HEAD; git clean -fdq; rm -rf $sv
